@@ -540,9 +540,9 @@ def check_perm(ctx, spec):
 def campaigns(ctx):
     thorough = ctx.tier == 'thorough'
     return [
-        Campaign('history', history_spec(False), check_history, 2200, 25000),
-        Campaign('clean', history_spec(True), check_history, 2200, 25000),
-        Campaign('perm', perm_spec(thorough), check_perm, 500, 1500),
+        Campaign('history', history_spec(False), check_history, 2200, 20000),
+        Campaign('clean', history_spec(True), check_history, 2200, 20000),
+        Campaign('perm', perm_spec(thorough), check_perm, 500, 600),
     ]
 
 
